@@ -86,6 +86,8 @@ def new_ref(ctx, base="ref"):
     ctx.assumptions.append(r != NONE)
     ctx.assumptions.append(r != ABSENT)
     ctx.heap["alloc"] = z3.Store(al, r, True)
+    nr = ctx.store.get(("newrefs",), {"refs": ()})
+    ctx.store[("newrefs",)] = {"refs": nr["refs"] + (r,)}
     return r
 
 
